@@ -13,7 +13,7 @@ BUDGET = {'quick': 3000, 'thorough': 200000}
 WALL = {'quick': 120, 'thorough': 2400}
 CHUNK = 8
 DET_K = 4
-SELFTEST = {'quick': 32, 'thorough': 128}
+SELFTEST = {'quick': 16, 'thorough': 128}
 TOL = 1e-11
 RULE = ('case = (grid sizes incl. several v sizes, equilibrium profiles made strongly radius dependent '
         '[kN0, kTi randomised], 1-3 process grids incl. non-dividing ones, density storage real or complex, '
